@@ -12,6 +12,9 @@ pub fn strings() -> Vec<Vec<u8>> {
     .map(|s| s.as_bytes().to_vec())
     .collect();
     v.push("long-".repeat(12).into_bytes());
+    // longer than the 63 bytes some servers keep of a name; and one whose 63rd byte is inside a character
+    v.push("name-".repeat(16).into_bytes());
+    v.push(format!("{}日本語", "x".repeat(62)).into_bytes());
     v
 }
 
